@@ -298,3 +298,67 @@ func loadedSchemasOnlyReachContext(fn *ssa.Function) bool {
 	}
 	return found
 }
+
+// mergeFlowResult (C17): in builder.mergeBuilderInto every value stored into the Path field of a copied
+// ast.Assignment is the result of underPath.Append(<the old path>) - ast.Path.Append is under contract
+// (fresh array, receiver ++ suffix) - and there are such stores (for constructor constants and for
+// option assignments). Building the path any other way (append(underPath, ...) on the shared prefix)
+// fails the obligation.
+func (e *Engine) mergeFlowResult() *FuncResult {
+	ctx := newCtx(e, e.anyFunction())
+	ctx.fnKey = "c17-merge-flow"
+	res := &FuncResult{Key: "c17-merge-flow", Ctx: ctx}
+	ok := false
+	if fn := e.fnByKey["builder.mergeBuilderInto"]; fn != nil {
+		root := findParam(fn, "underPath")
+		n := 0
+		ok = root != nil
+		for _, b := range fn.Blocks {
+			for _, in := range b.Instrs {
+				st, isSt := in.(*ssa.Store)
+				if !isSt {
+					continue
+				}
+				fa, isFA := st.Addr.(*ssa.FieldAddr)
+				if !isFA {
+					continue
+				}
+				pt, isP := fa.X.Type().Underlying().(*types.Pointer)
+				if !isP {
+					continue
+				}
+				nt, isN := pt.Elem().(*types.Named)
+				if !isN || nt.Obj().Name() != "Assignment" {
+					continue
+				}
+				if nt.Underlying().(*types.Struct).Field(fa.Field).Name() != "Path" {
+					continue
+				}
+				n++
+				call, isCall := st.Val.(*ssa.Call)
+				if !isCall || call.Call.StaticCallee() == nil || funcKey(call.Call.StaticCallee()) != "ast.Path.Append" || len(call.Call.Args) != 2 || call.Call.Args[0] != ssa.Value(root) {
+					ok = false
+				}
+			}
+		}
+		// every ast.Assignment appended by this function is one of those locals: no call may produce assignments
+		for _, b := range fn.Blocks {
+			for _, in := range b.Instrs {
+				if call, isCall := in.(*ssa.Call); isCall {
+					if sc := call.Call.StaticCallee(); sc != nil && e.inModule(sc) {
+						rs := sc.Signature.Results()
+						for i := 0; i < rs.Len(); i++ {
+							if nt, isN := rs.At(i).Type().(*types.Named); isN && nt.Obj().Name() == "Assignment" {
+								ok = false
+							}
+						}
+					}
+				}
+			}
+		}
+		ok = ok && n >= 2
+	}
+	ctx.addOblig("flow", "builder.mergeBuilderInto:copied-assignments-are-re-rooted-with-Path.Append", BoolLit(ok), "internal/veneers/builder/rules.go")
+	res.Obligs = ctx.obligs
+	return res
+}
